@@ -284,7 +284,7 @@ func TestC17(t *testing.T) {
 				// foreign request by a client of w against another collection
 				ow := cw.cols[(wi+1+rapid.IntRange(0, len(cw.cols)-2).Draw(rt, "other"))%len(cw.cols)]
 				cl := w.clients[rapid.IntRange(0, len(w.clients)-1).Draw(rt, "fclient")]
-				variant := rapid.SampledFrom([]string{"names-other-collection", "names-other-collection+create", "names-other-collection+subscribe", "foreign-duid-normal", "foreign-duid-subscribe", "foreign-duid-create", "re-register"}).Draw(rt, "variant")
+				variant := rapid.SampledFrom([]string{"names-other-collection", "names-other-collection+create", "names-other-collection+subscribe", "foreign-duid-normal", "foreign-duid-subscribe", "foreign-duid-create", "foreign-duid-create+own-operations", "foreign-duid-normal+own-operations", "re-register"}).Draw(rt, "variant")
 				step(fmt.Sprintf("%s.c%d:foreign(%s -> %s)", w.col, cl.idx, variant, ow.col), func() error {
 					if sharedBoth {
 						foreignAfter = true
@@ -292,7 +292,7 @@ func TestC17(t *testing.T) {
 					cw.env.WaitBackground(3 * time.Second)
 					before := cw.env.Mongo.DumpCanonical()
 					var refused, timedOut bool
-					var detail string
+					var detail, foreignLogBefore string
 					if variant == "re-register" {
 						m := model.NewClientMessage(cl.pc.ClientModel())
 						m.Collection = ow.col
@@ -329,22 +329,49 @@ func TestC17(t *testing.T) {
 							if k.duid == "" {
 								return nil
 							}
-							p.DUID, p.Key, p.Type = k.duid, k.Name, typeOfKind(k.Kind)
-							p.CheckPoint = &model.CheckPoint{}
-							p.Operations = nil
-							switch variant {
-							case "foreign-duid-subscribe":
-								p.Option = uint32(model.PushPullBitSubscribe)
-							case "foreign-duid-create":
-								p.Option = uint32(model.PushPullBitCreate)
-							default:
+							if strings.HasSuffix(variant, "+own-operations") && d != nil && d.entered && d.key.Kind == k.Kind {
+								// the client's own next pack for its own datatype of that key (a fresh local operation, its
+								// real checkpoint) - only the datatype id is the foreign one
+								sim.Exec(d.key.Kind, d.dt, c06CheapCall(d.key.Kind, 700+i))
+								req = proto.Clone(cl.pc.BuildRequest(d.dt)).(*model.PushPullMessage)
+								p = req.PushPullPacks[0]
+								p.DUID = k.duid
 								p.Option = 0
+								if variant == "foreign-duid-create+own-operations" {
+									p.Option = uint32(model.PushPullBitCreate)
+								}
+							} else {
+								p.DUID, p.Key, p.Type = k.duid, k.Name, typeOfKind(k.Kind)
+								p.CheckPoint = &model.CheckPoint{}
+								p.Operations = nil
+								switch variant {
+								case "foreign-duid-subscribe":
+									p.Option = uint32(model.PushPullBitSubscribe)
+								case "foreign-duid-create", "foreign-duid-create+own-operations":
+									p.Option = uint32(model.PushPullBitCreate)
+								default:
+									p.Option = 0
+								}
 							}
+							foreignLogBefore = logKeys(ow, k.duid)
 						}
 						resp, e, to := cw.env.ProcessPushPull(req, l1Deadline)
 						timedOut = to
 						refused = refusedPushPull(resp, e)
 						detail = fmt.Sprint(e)
+						if strings.HasSuffix(variant, "+own-operations") {
+							// the bookkeeping has to know that these operations were sent (the server may store them in the
+							// client's OWN datatype: subscribe / create are resolved by collection and key); the answer is
+							// not applied - the client sends them again with its next honest sync
+							w.record(cl, &exchange{req: req, rpcErr: fmt.Errorf("not applied"), errPacks: map[string]string{}})
+						}
+						if foreignLogBefore != "" || strings.HasPrefix(variant, "foreign-duid") {
+							// the foreign datatype's log as the server reads it (by datatype id): nothing may have joined it
+							cw.env.WaitBackground(3 * time.Second)
+							if after := logKeys(ow, k.duid); after != foreignLogBefore {
+								return fmt.Errorf("a request of a client registered in %s changed the log of datatype %s of collection %s (read by datatype id):\n  before: %s\n  after:  %s", w.col, k.duid, ow.col, foreignLogBefore, after)
+							}
+						}
 						if !refused && resp != nil {
 							// whatever the answer, it must not carry operations of the foreign datatype
 							foreign := map[string]bool{}
@@ -361,7 +388,7 @@ func TestC17(t *testing.T) {
 								}
 							}
 						}
-						if (variant == "foreign-duid-subscribe" || variant == "foreign-duid-create") && !refused {
+						if (variant == "foreign-duid-subscribe" || variant == "foreign-duid-create" || strings.HasSuffix(variant, "+own-operations")) && !refused {
 							// subscribe/create are resolved by (own collection, key): they legitimately act on the
 							// client's own collection; only the foreign partition must stay untouched
 							cw.env.WaitBackground(3 * time.Second)
@@ -619,4 +646,14 @@ func TestC17Numbers(t *testing.T) {
 		c.j.Header = seqs
 		col.Case(len(nums) >= 2, fmt.Sprint(seqs), nil, func() interface{} { return seqs })
 	})
+}
+
+// logKeys renders the stored log of a datatype id (whatever collection number its documents carry).
+func logKeys(w *l1World, duid string) string {
+	log, _ := w.storedLog(duid)
+	var sb strings.Builder
+	for _, so := range log {
+		sb.WriteString(fmt.Sprintf("%d=%s ", so.sseq, opKey(so.op)))
+	}
+	return sb.String()
 }
